@@ -84,7 +84,14 @@ Definition scase_model (c : scase) : sres N :=
   suggest_maven_version N (memN (s_parses c)) (rank_cmp (s_rank c)) (lookup2 (s_dif c) DiffOther)
                         (s_verr c) (s_level c) (s_constr c) (s_versions c).
 
-Definition scase_model_ok (c : scase) : bool := sres_eqb (scase_model c) (s_observed c).
+(* a simple requirement whose suggestion is the very string it was: indistinguishable from "unchanged" *)
+Definition s_canon (c : scase) (r : sres N) : sres N :=
+  match r, s_ckind c, s_cur c with
+  | SNew v, 1%N, Some cur => if N.eqb v cur then SKeep else r
+  | _, _, _ => r
+  end.
+
+Definition scase_model_ok (c : scase) : bool := sres_eqb (s_canon c (scase_model c)) (s_canon c (s_observed c)).
 
 (* specification side. The version the requirement is taken to stand for: the written version
    (simple), or a parsing, matching version of greatest rank (the first such in the list). *)
@@ -104,15 +111,14 @@ Fixpoint distinct_ranks (t : list (N * Z)) (l : list N) : bool :=
   | v :: l' => forallb (fun w => negb (Z.eqb (lookup1 t 0%Z v) (lookup1 t 0%Z w))) l' && distinct_ranks t l'
   end.
 
-(* D: the requirement's current version is known to the registry and versions are pairwise different
-   in the ecosystem order *)
+(* D: Compare is the preorder the ranks describe and no two different version strings (the required
+   one included) compare equal *)
 Definition scase_dom (c : scase) : bool :=
-  s_consistent c && negb (s_verr c) &&
-  distinct_ranks (s_rank c) (filter (memN (s_parses c)) (s_versions c)) &&
-  match s_ckind c, spec_current c with
-  | 1%N, Some cur => memN (s_versions c) cur && memN (s_parses c) cur
-  | 2%N, Some _ => true
-  | _, _ => false
+  let ps := filter (memN (s_parses c)) (s_versions c) in
+  s_consistent c && distinct_ranks (s_rank c) ps &&
+  match s_ckind c, s_cur c with
+  | 1%N, Some cur => memN ps cur || forallb (fun w => negb (Z.eqb (lookup1 (s_rank c) 0%Z cur) (lookup1 (s_rank c) 0%Z w))) ps
+  | _, _ => true
   end.
 
 (* the property on the observed result: no panic; a suggested version is within the level of, and
@@ -131,7 +137,9 @@ Definition scase_prop_ok (c : scase) : bool :=
       end
   end.
 
-Definition scase_spec_ok (c : scase) : bool := negb (scase_dom c) || scase_prop_ok c.
+(* no panic is claimed everywhere; the order-dependent parts on D *)
+Definition scase_spec_ok (c : scase) : bool :=
+  negb (sres_eqb (s_observed c) SPanic) && (negb (scase_dom c) || scase_prop_ok c).
 
 (* ================= MavenSuggester.Suggest over the requirements of a manifest ================= *)
 Definition sugg_eqb (a b : sugg N) : bool :=
@@ -144,23 +152,36 @@ Definition sugg_eqb (a b : sugg N) : bool :=
   end.
 
 Record qcase := { q_cfg : config; q_reqs : list (sreq N);
-  q_listed : bool;   (* every requirement that is looked at names a version the registry lists *)
+  q_listed : bool;   (* D: for every declared package, no two different version strings (the declared one
+                        included) compare equal *)
+  q_judged : list (N * comparison * diff);
+                     (* per returned update whose declared requirement stands for a known version cur:
+                        package, Compare(cur, VersionTo), Difference(VersionTo, cur) *)
   q_observed : sugg N }.
 
 Definition qcase_model_ok (c : qcase) : bool :=
   sugg_eqb (suggest_all N N.eqb (q_cfg c) (q_reqs c) []) (q_observed c).
 
-(* no update names a package configured as none *)
-Definition qcase_prop_ok (c : qcase) : bool :=
+(* no update names a package configured as none; (on D) every update is strictly upward and within
+   the level, judged against its own declaration *)
+Definition qcase_none_ok (c : qcase) : bool :=
   match q_observed c with
   | SuggOk ups => forallb (fun u => negb (level_eqb (config_get (q_cfg c) (fst (fst u))) LNone)) ups
+  | _ => true
+  end.
+Definition qcase_prop_ok (c : qcase) : bool :=
+  match q_observed c with
+  | SuggOk ups => qcase_none_ok c &&
+                  forallb (fun j => let '(p, cm, d) := j in is_lt cm && allows (config_get (q_cfg c) p) d) (q_judged c)
   | SuggErr => true
   | SuggPanic => false
   end.
 Definition qcase_dom (c : qcase) : bool := q_listed c.
 Definition qcase_spec_ok (c : qcase) : bool :=
-  if qcase_dom c then qcase_prop_ok c
-  else match q_observed c with SuggPanic => true | _ => qcase_prop_ok c end.
+  match q_observed c with
+  | SuggPanic => false
+  | _ => if qcase_dom c then qcase_prop_ok c else qcase_none_ok c
+  end.
 
 (* ================= result oracle: one PackageUpdate of FixVulns / Update ================= *)
 Record ucase := {
@@ -170,9 +191,10 @@ Record ucase := {
   u_cmp : comparison;        (* Compare(version without the update, version with it) *)
   u_dif : diff;              (* Difference of the two *)
   u_op : N;                  (* relax: 0 = "~", 1 = "^", 2 = other *)
-  u_listed : bool;           (* Update: the registry lists the current version (or the range has a match);
-                                Update and override: the package's versions are pairwise different in the order *)
-  u_honoured : bool;         (* the package resolves to the version the update asks for (override, update) *)
+  u_listed : bool;           (* Update and override: no two different version strings of the package (the
+                                declared one included) compare equal *)
+  u_honoured : bool;         (* override, update: the package resolves to what the old / new requirement asks for;
+                                relax: the old requirement resolves to its highest matching version *)
   u_indep : bool;            (* the other updates of the run leave this package where the original manifest has it *)
   u_consistent : bool
 }.
@@ -184,7 +206,7 @@ Definition ucase_dom (c : ucase) : bool :=
   u_consistent c &&
   match u_strategy c with
   | 0%N => u_listed c && u_honoured c
-  | 1%N => relax_range_dom (u_level c) (match u_op c with 0%N => Tilde | _ => Caret end)
+  | 1%N => valid_level (u_level c) && u_honoured c
   | _ => u_listed c && u_honoured c && u_indep c
   end.
 (* when another update of the same run already lifts the package (through a hard requirement of the
@@ -255,15 +277,13 @@ Definition rcase_prop_range (c : rcase) : bool :=
 
 Definition rcase_prop_ok (c : rcase) : bool := rcase_prop_core c && rcase_prop_range c.
 
+(* D: Compare is the preorder of the ranks, every version parses, no two compare equal, and Difference
+   classifies every pair (never Same / Other / an error) *)
 Definition rcase_dom_core (c : rcase) : bool :=
-  r_consistent c && forallb (memN (r_parses c)) (r_vers c) && distinct_ranks (r_rank c) (r_vers c).
+  r_consistent c && forallb (memN (r_parses c)) (r_vers c) && distinct_ranks (r_rank c) (r_vers c) &&
+  forallb (fun e => match snd e with Some d => classified d | None => false end) (r_dif c).
 
-Definition rcase_dom (c : rcase) : bool :=
-  rcase_dom_core c &&
-  match r_observed c with
-  | Some (op, _) => relax_range_dom (r_level c) op
-  | None => true
-  end.
+Definition rcase_dom (c : rcase) : bool := rcase_dom_core c && valid_level (r_level c).
 
 Definition rcase_spec_ok (c : rcase) : bool :=
   (negb (rcase_dom_core c) || rcase_prop_core c) && (negb (rcase_dom c) || rcase_prop_range c).
@@ -391,19 +411,25 @@ Definition ocase_model_ok (c : ocase) : bool := ores_eqb (ocase_model c) (o_obse
 Definition first_from (ps : list patch) (p : N) (d : N) : N :=
   match find (fun q => N.eqb (fst (fst q)) p) ps with Some q => snd (fst q) | None => d end.
 
-Definition ocase_prop_ok (c : ocase) : bool :=
+Definition ocase_prop_core (c : ocase) : bool :=
   match o_observed c with
   | OOutOfFuel _ => false
   | _ =>
-      let ps := patches_of (o_observed c) in
       forallb (fun q =>
         let '(p, from, to) := q in
         let l := config_get (o_cfg c) p in
         negb (level_eqb l LNone) &&
         rank_lt (lookup_opt (o_rank c)) from to &&
-        allows l (lookup2 (o_dif c) DiffOther from to) &&
-        allows l (lookup2 (o_dif c) DiffOther (first_from ps p from) to)) ps
+        allows l (lookup2 (o_dif c) DiffOther from to)) (patches_of (o_observed c))
   end.
+
+Definition ocase_prop_orig (c : ocase) : bool :=
+  let ps := patches_of (o_observed c) in
+  forallb (fun q =>
+    let '(p, from, to) := q in
+    allows (config_get (o_cfg c) p) (lookup2 (o_dif c) DiffOther (first_from ps p from) to)) ps.
+
+Definition ocase_prop_ok (c : ocase) : bool := ocase_prop_core c && ocase_prop_orig c.
 
 (* the resolver premises of override_terminates, evaluated on the recorded answers: an overridden
    package resolves to the overriding version; one version per package among the vulnerable nodes *)
@@ -419,8 +445,14 @@ Definition resolver_honours (c : ocase) : bool :=
         forallb (fun n => forallb (fun m => negb (N.eqb (fst n) (fst m)) || N.eqb (snd n) (snd m)) ns) ns
     end) (o_analyse c).
 
-Definition ocase_dom (c : ocase) : bool :=
-  o_consistent c && forallb (fun pv => wf_versionsb (lookup_opt (o_rank c)) (snd pv)) (o_versions c) &&
-  resolver_honours c.
+Definition ocase_dom_core (c : ocase) : bool :=
+  o_consistent c && forallb (fun pv => wf_versionsb (lookup_opt (o_rank c)) (snd pv)) (o_versions c).
 
-Definition ocase_spec_ok (c : ocase) : bool := negb (ocase_dom c) || ocase_prop_ok c.
+Definition ocase_dom (c : ocase) : bool := ocase_dom_core c && resolver_honours c.
+
+(* termination, strictly upward, within the level of the version resolved before, never a none package:
+   on every well-formed universe; within the level of the original version: where the resolver honours
+   the overrides *)
+Definition ocase_spec_ok (c : ocase) : bool :=
+  match o_observed c with OOutOfFuel _ => false | _ => true end &&
+  (negb (ocase_dom_core c) || ocase_prop_core c) && (negb (ocase_dom c) || ocase_prop_orig c).
